@@ -13,13 +13,12 @@ oracle:         penman.encode(g, top) under an alarm must return text; penman.de
 """
 import collections
 import itertools
-import os
 import random
 
-from harness import common, gen, models
+from harness import common
 from harness import c06 as K
 from harness.c06 import INSTANCE, Result, Batch, judge, model_info, MODEL_NAMES
-from harness.common import timed, Timeout
+from harness.common import timed
 
 THEOREMS = ['C03_content_preserved', 'C03_zero_is_written']
 
@@ -120,7 +119,8 @@ def explore_graph(res, batch, info, rng, stream, base, variables, seen_texts, li
             k = rng.randint(1, max(1, len(t2) - 1))
             shuf = list(t2)
             rng.shuffle(shuf)
-            for order in (t2, t2[::-1], t2[k:] + t2[:k], shuf):
+            orders = list(dict.fromkeys(tuple(o) for o in (t2, t2[::-1], t2[k:] + t2[:k], shuf)))
+            for order in map(list, orders):
                 for top2 in variables:
                     tg, _, _ = judge(res, info, batch, stream + '-remarked', order, top2, g2._top, epi2,
                                      zero_key='zero-dropped', want_key=want_key, history=[s])
@@ -175,7 +175,7 @@ def exh_graphs(tier):
                     if tier != 'quick':
                         for ex in itertools.combinations([x for x in e3 if x not in base], 2):
                             out.append(('v3+2', base + list(ex)))
-    return out
+    return K.dedupe_graphs(out)
 
 
 def exh_worker(item):
@@ -298,7 +298,7 @@ def run(chk):
     for kind, gs in by_kind.items():
         chk.stat(f'exh:family-{kind}-graphs', len(gs))
 
-    K.run_stream(chk, 'hand', hand_worker, [(exe, m) for m in MODEL_NAMES] + [(None, 'default')])
+    K.run_stream(chk, 'hand', hand_worker, [(exe, m) for m in MODEL_NAMES])
 
     nitems = 64 if quick else 960
     items = [(exe, rng.getrandbits(48), 8 if quick else 20, 6 if (quick or i % 2) else 8, MODEL_NAMES)
